@@ -136,7 +136,7 @@ def run_case(ctx, root, n, case, strace=False):
         argv += ["--diagnostic-format", "json"]
     before = gc.snapshot()
     if strace:
-        trace = os.path.join(gc.dir, "_trace")
+        trace = os.path.join(root, "trace-%d.txt" % n)     # outside the watched case directory
         p = subprocess.run(["strace", "-f", "-qq", "-e", "trace=execve,openat,creat", "-o", trace, ctx.paths["slicec"]] + argv,
                            cwd=gc.dir, env=dict(os.environ, FAKEGEN_LOG=gc.log), stdout=subprocess.PIPE, stderr=subprocess.PIPE)
         res = core.ProcResult(status=p.returncode if p.returncode >= 0 else None, signal=-p.returncode if p.returncode < 0 else None,
@@ -206,9 +206,12 @@ def run_case(ctx, root, n, case, strace=False):
             ctx.violate("warnings-fail-the-run", "no error anywhere but exit status %r" % res.status, replay)
             return
         if strace:
-            with open(os.path.join(gc.dir, "_trace"), errors="replace") as f:
+            with open(os.path.join(root, "trace-%d.txt" % n), errors="replace") as f:
                 t = f.read()
-            execs = [l for l in t.splitlines() if "execve(" in l and "gen-" in l and "= 0" in l]
+            os.unlink(os.path.join(root, "trace-%d.txt" % n))
+            # attempted execs of a generator; with -f a call can be split into "<unfinished ...>" / "resumed" lines, the
+            # path is on the first of them
+            execs = [l for l in t.splitlines() if re.search(r'execve\("[^"]*/gen-[^"/]*"', l) and "= -1" not in l]
             creates = [l for l in t.splitlines() if ("O_CREAT" in l or "creat(" in l) and ".txt" in l and " = -1" not in l]
             ctx.stats["strace_runs"] += 1
             if should_generate:
